@@ -15,7 +15,7 @@ Definition dispatch (e : sexp) : sexp :=
   | Lst (Sym "c01" :: args) => run_c01 args
   | Lst (Sym "egm" :: args) => run_egm args
   | Lst (Sym "egs" :: args) => run_egs args
-  | Lst (Sym "egall" :: args) => run_egall args
+  | Lst (Sym "egall" :: args) => run_egall_static args
   | Lst (Sym "eg9" :: args) => run_eg9 args
   | Lst (Sym "egt" :: args) => run_egt false args
   | Lst (Sym "egtl" :: args) => run_egt true args
